@@ -20,13 +20,16 @@ RULE = ('generated directory trees on tmpfs (<= 40 entries, depth <= 3) mixing .
         'orphans under faults, nothing created or modified, nothing deleted with -k/--usecompiled. '
         'distinct = digest of tree shape + options + faults; non-trivial = the tree has an orphan '
         'or a look-alike')
+RULE += (' ' + 'Later additions: a concurrent writer creates the source file beside a stale-looking bytecode file of another directory just before the n-th unlink: that file must survive.')
 REAL_VS_STUB = {
     'real': 'Runner.configure, options, Find feature, remove_stale_bytecode, walk_with_symlinks, '
             'find_test_files on a real tmpfs tree',
-    'stub': 'find.os (enumeration order of os.walk, unlink faults); no layer children',
+    'stub': 'find.os (enumeration order of os.walk, unlink faults, a concurrent writer); no layer '
+            'children',
 }
 ASSUMPTIONS = ['"ignored directory" is read as the --ignore_dir set (what the anchored mechanism '
-               'prunes); symlinked directories are not generated']
+               'prunes); symlinked directories and file links are generated - what is deleted through a '
+               'link is compared under its real path']
 DIRNAMES = ['pkga', 'pkgb', 'sub', 'tests', '__pycache__', '.git', 'CVS', 'node_modules',
             'my-dir', '_darcs', 'skipme', 'deep']
 FILENAMES = ['mod.py', 'mod.pyc', 'mod.pyo', 'old.pyc', 'old.pyo', 'x.pyc.bak', '.pyc', 'pyc',
